@@ -28,6 +28,10 @@ Sensitivity (quick tier, seed 1, scratch copies; all caught = exit 1):
   * unknown command-line option silently ignored (``continue``) ....... caught (C44.bad_input_accepted)
   * ``remaining = args[i:]`` -> ``args[i + 1:]`` ........................ caught (C44.remaining_args)
   * ``_parse_bool``: ``"f"`` dropped from the false list ............... caught (C44.value)
+  * ``_parse_timedelta``: ``_TIMEDELTA_PATTERN.match(value, start)`` -> ``.search(value, start)`` (junk before or
+    between components skipped: ``x45s``, ``about 45s``, ``1h, 30m``, ``=45``) ... caught (C44.bad_input_accepted,
+    negative kind ``td_junk``: junk before / between / after otherwise valid components, command line and
+    config-file strings; added after independent mutation testing showed the earlier negative list missed it)
 """
 import calendar
 import contextlib
@@ -582,6 +586,30 @@ def build_negative(nkind, d, defs, payload):
             inner = {"int": "'x'", "float": "'x'", "str": "5", "bool": "'x'", "datetime": "5", "timedelta": "5"}[tname]
             lit = ["{1.5: 2}" if tname == "float" else "5.5", "{'a': 1}", "[%s]" % inner, "[%s]" % inner][payload_index(payload, 4)]
         return "config", "%s = %s" % (var, lit), "config_wrong_type" + ("_multiple" if multiple else "")
+    if nkind == "td_junk":
+        # junk + otherwise valid components.  The documented grammar is a sequence of
+        #   \s* NUMBER \s* \w* \s*      (NUMBER starts with a digit, sign or '.')
+        # so between/around components only whitespace is allowed: junk that is neither whitespace nor able
+        # to start a NUMBER cannot be skipped, and word junk either fails to start a NUMBER or fuses with the
+        # preceding unit into an unknown unit.  Every such text must be rejected.
+        if tname != "timedelta":
+            return None
+        where, junk, sep_a, sep_b, groups, channel = payload
+        if multiple:
+            junk = junk.replace(",", ";")  # ',' separates the values of a multiple option
+        comps = [numtext + (space if unit else "") + unit for numtext, space, unit in groups]
+        if where == "between" and len(comps) < 2:
+            where = "before"
+        if where == "before":
+            text = junk + sep_a + " ".join(comps)
+        elif where == "after":
+            text = " ".join(comps) + sep_a + junk
+        else:
+            text = " ".join(comps[:1]) + sep_a + junk + sep_b + " ".join(comps[1:])
+        label = "td_junk_%s_%s" % (where, "word" if junk[:1].isalpha() else "punct")
+        if channel == "config":
+            return "config", "%s = %r" % (ident(name), text), label + "_config"
+        return "cmdline", ["--%s=%s" % (name, text)], label
     if nkind == "config_bad_string":
         if tname in ("str", "bool"):
             return None
@@ -640,6 +668,23 @@ td_spec_s = st.one_of(
     st.tuples(st.lists(td_group_s, min_size=1, max_size=4), st.sampled_from([" ", " ", "  "])),
     st.tuples(st.lists(st.tuples(td_num_s, st.just(""), st.just("")), min_size=1, max_size=1), st.just(" ")),  # plain seconds
 )
+# junk that the timedelta grammar cannot skip: punctuation that is not whitespace, not \w and cannot start a
+# number (no sign, no '.'), and words that are not units and do not start with a digit
+TD_JUNK = [",", "??", "=", ";", "/", ":", "#", "&", "(", ")", "!", "~", ", ", "x", "about", "and", "approx", "ca"]
+_td_unit_group_s = st.tuples(st.one_of(st.integers(0, 999).map(str), st.sampled_from(["1.5", "45", "30", "0.25", "2."])),
+                             st.sampled_from(["", "", " "]), td_unit_s)
+td_junk_payload_s = st.tuples(
+    st.sampled_from(["before", "before", "between", "between", "after"]),
+    st.sampled_from(TD_JUNK),
+    st.sampled_from(["", " ", " "]),
+    st.sampled_from(["", " ", " "]),
+    st.one_of(
+        st.lists(_td_unit_group_s, min_size=1, max_size=3),
+        st.tuples(st.lists(_td_unit_group_s, max_size=2), st.tuples(st.integers(0, 999).map(str), st.just(""), st.just(""))).map(
+            lambda t: t[0] + [t[1]]),  # last component = plain seconds
+    ),
+    st.sampled_from(["cmdline", "cmdline", "config"]),
+)
 range_s = st.tuples(st.just("range"), st.integers(-1000, 1000), st.integers(0, 60)).map(lambda t: (t[0], t[1], t[1] + t[2]))
 
 SCALAR = {"str": str_s, "int": int_spec_s, "float": float_spec_s, "bool": bool_text_s, "datetime": dt_spec_s, "timedelta": td_spec_s}
@@ -694,9 +739,15 @@ def case_s(draw):
             assigns = [(oi, draw(st.sampled_from(["native", "string", "string"])), draw(value_spec(defs[oi]))) for oi in idxs]
             steps.append(("config", assigns))
     if draw(st.integers(0, 2)) == 0:
-        steps.append(("neg", draw(st.sampled_from(["unknown_option", "unknown_suffix", "missing_value", "bad_text", "bad_text",
-                                                   "config_wrong_type", "config_bad_string"])),
-                      draw(st.integers(0, n - 1)), draw(st.text(alphabet="abcxyz-_", max_size=6))))
+        td_idxs = [i for i, d in enumerate(defs) if d["type"] == "timedelta"]
+        kinds = ["unknown_option", "unknown_suffix", "missing_value", "bad_text", "bad_text", "config_wrong_type", "config_bad_string"]
+        if td_idxs:
+            kinds += ["td_junk"] * 4
+        nkind = draw(st.sampled_from(kinds))
+        if nkind == "td_junk":
+            steps.append(("neg", nkind, draw(st.sampled_from(td_idxs)), draw(td_junk_payload_s)))
+        else:
+            steps.append(("neg", nkind, draw(st.integers(0, n - 1)), draw(st.text(alphabet="abcxyz-_", max_size=6))))
     return {"defs": defs, "steps": steps}
 
 
